@@ -225,7 +225,7 @@ def r2(ctx):
             isinstance(t, ast.Call) and isinstance(m, ast.Call) and callee(t) == "self.get_tree" and callee(m) == "self.get_map"
             and [u(a) for a in t.args] == [u(a) for a in m.args] == [assoc.params[1]]
         )
-        ctx.check(okshape, key, f"tree is {u(t)}, map is {u(m)}: both must be looked up for the file being associated", assoc.loc())
+        ctx.soft(okshape, key, f"tree is {u(t)}, map is {u(m)}: both must be looked up for the file being associated", assoc.loc())
 
 
 def _check_visitor_row(ctx, cb, c, kind, p, nodep):
@@ -754,7 +754,7 @@ def r6(ctx):
                     asg = [n for n in walk_no_nested(f.node) if isinstance(n, ast.Assign) and u(n.targets[0]) == lo]
                     if len(asg) == 1 and u(asg[0].value) == "self.pos" and asg[0].lineno > _kw_line(f):
                         good.append(s)
-        ctx.check(
+        ctx.soft(
             len(slices) >= 1 and len(good) == len(slices),
             key,
             f"payload slices {[u(s) for s in slices]} must all be `self.tokens[<pos after keyword>:]` (no token dropped or kept twice)",
@@ -774,7 +774,7 @@ def r6(ctx):
             arg = env.get(arg.id, arg)
         why = f"evaluator input is {u(arg)}"
         ok = callee(ee) == "ExpressionEvaluator" and u(arg) == "MacroExpander(kwargs['platform']).expand(self.expr)"
-    ctx.check(ok, key, f"#if must evaluate ExpressionEvaluator(MacroExpander(platform).expand(self.expr)).evaluate(): {why}", ifn.loc())
+    ctx.soft(ok, key, f"#if must evaluate ExpressionEvaluator(MacroExpander(platform).expand(self.expr)).evaluate(): {why}", ifn.loc())
     ctx.floor(6)
 
 
